@@ -4,6 +4,11 @@
 //!          (read back with BufRead::lines, real clean + normalize) — oracle field,
 //!          re-derived by `canon`; ntok: special tokens of the tokenizer built from
 //!          the table; tests: strings for the round trip
+//!          A raw line is a list of integers: a code point (>= 0, written as its UTF-8), a raw byte b as -(b+1)
+//!          (so lines that are NOT UTF-8 can be written: BufRead::lines returns Err for them, train_bpe skips them
+//!          AFTER take(max_lines_per_file)), and -1000 as last item of the last line of a file = no newline after it.
+//!          proc has one entry per line lines() yields: the processed line, or (-1) for a line that is not UTF-8.
+//!          The model reads the bytes itself (C19_Lines.v: split at 0x0A, strip 0x0D, strict UTF-8 decoder).
 //! output = (table toks vsize vocab t2i trace nfside file)
 //!          file = the bytes of the merge file train_bpe wrote (MessagePack); the model decodes them itself
 //!          (MsgPack_Model.v) and requires: nothing follows the map, re-encoding the entries in file order
@@ -147,10 +152,63 @@ struct Params {
     norm: i64,
     threads: u8,
     maxlines: Option<usize>,
-    files: Vec<Vec<String>>,
+    /// per file, per line: the bytes and "no newline after this line"
+    files: Vec<Vec<(Vec<u8>, bool)>>,
     ntok: usize,
     tests: Vec<String>,
     side: Vec<String>,
+}
+
+/// a raw corpus line: code points (>= 0), raw bytes as -(b+1), -1000 as last item = unterminated
+fn raw_line(v: &Val) -> Option<(Vec<u8>, bool)> {
+    let items = v.as_l()?;
+    let mut out = vec![];
+    let mut unterminated = false;
+    for (k, x) in items.iter().enumerate() {
+        let z = x.as_i()?;
+        if z >= 0 {
+            let c = char::from_u32(u32::try_from(z).ok()?)?;
+            let mut b = [0u8; 4];
+            out.extend(c.encode_utf8(&mut b).as_bytes());
+        } else if z >= -256 {
+            out.push((-z - 1) as u8);
+        } else if z == -1000 && k + 1 == items.len() {
+            unterminated = true;
+        } else {
+            return None;
+        }
+    }
+    Some((out, unterminated))
+}
+
+/// all files of an input; the unterminated marker is only allowed on the last line of a file
+fn raw_files(v: &Val) -> Option<Vec<Vec<(Vec<u8>, bool)>>> {
+    let mut files = vec![];
+    for f in v.as_l()? {
+        let lines = f.as_l()?.iter().map(raw_line).collect::<Option<Vec<_>>>()?;
+        if lines.iter().enumerate().any(|(k, l)| l.1 && k + 1 != lines.len()) {
+            return None;
+        }
+        files.push(lines);
+    }
+    Some(files)
+}
+
+/// make a (shrunk / hand-written) raw line consistent
+fn canon_raw_line(v: &Val, last: bool) -> Option<Val> {
+    let items = v.as_l()?;
+    let mut out = vec![];
+    for (k, x) in items.iter().enumerate() {
+        let z = x.as_i()?;
+        if z >= 0 {
+            out.push(Val::I(if u32::try_from(z).ok().and_then(char::from_u32).is_some() { z } else { 97 }));
+        } else if z >= -256 {
+            out.push(Val::I(z));
+        } else if z == -1000 && last && k + 1 == items.len() {
+            out.push(Val::I(z));
+        }
+    }
+    Some(Val::L(out))
 }
 
 fn parse_params(input: &Val) -> Option<Params> {
@@ -167,11 +225,7 @@ fn parse_params(input: &Val) -> Option<Params> {
         [x] => Some(x.as_usize()?),
         _ => return None,
     };
-    let files = l[5]
-        .as_l()?
-        .iter()
-        .map(|f| f.as_l()?.iter().map(|s| s.to_string_lossy()).collect::<Option<Vec<_>>>())
-        .collect::<Option<Vec<_>>>()?;
+    let files = raw_files(&l[5])?;
     let tests = l[8].as_l()?.iter().map(|s| s.to_string_lossy()).collect::<Option<Vec<_>>>()?;
     Some(Params {
         vocab: l[0].as_usize()?,
@@ -204,14 +258,16 @@ impl C19 {
     }
 
     /// write the corpus files; returns their paths
-    fn write_files(d: &Path, files: &[Vec<String>]) -> Option<Vec<PathBuf>> {
+    fn write_files(d: &Path, files: &[Vec<(Vec<u8>, bool)>]) -> Option<Vec<PathBuf>> {
         let mut paths = vec![];
         for (i, lines) in files.iter().enumerate() {
             let p = d.join(format!("f{i}.txt"));
             let mut f = std::fs::File::create(&p).ok()?;
-            for line in lines {
-                f.write_all(line.as_bytes()).ok()?;
-                f.write_all(b"\n").ok()?;
+            for (line, unterminated) in lines {
+                f.write_all(line).ok()?;
+                if !unterminated {
+                    f.write_all(b"\n").ok()?;
+                }
             }
             paths.push(p);
         }
@@ -225,7 +281,13 @@ impl C19 {
             let rd = std::io::BufReader::new(std::fs::File::open(p).ok()?);
             let mut lines = vec![];
             for line in rd.lines() {
-                let mut line = clean(&line.ok()?, true);
+                // a line that is not UTF-8 is an Err of the iterator (train_bpe's filter_map drops it); the
+                // iterator goes on with the next line
+                let Ok(line) = line else {
+                    lines.push(Val::L(vec![Val::I(-1)]));
+                    continue;
+                };
+                let mut line = clean(&line, true);
                 if let Some(n) = norm_of(norm) {
                     line = normalize(&line, n, true);
                 }
@@ -246,11 +308,16 @@ impl C19 {
             [] => Val::none(),
             [x, ..] => Val::some(Val::u(x.as_usize()?)),
         };
-        let files: Vec<Vec<String>> = l[5]
-            .as_l()?
-            .iter()
-            .map(|f| f.as_l()?.iter().map(|s| s.to_string_lossy()).collect::<Option<Vec<_>>>())
-            .collect::<Option<Vec<_>>>()?;
+        let files_val = Val::L(
+            l[5].as_l()?
+                .iter()
+                .map(|f| {
+                    let ls = f.as_l()?;
+                    Some(Val::L(ls.iter().enumerate().map(|(k, x)| canon_raw_line(x, k + 1 == ls.len())).collect::<Option<Vec<_>>>()?))
+                })
+                .collect::<Option<Vec<_>>>()?,
+        );
+        let files = raw_files(&files_val)?;
         let ntok = l[7].as_usize()?.clamp(1, 6);
         let tests: Vec<String> =
             l[8].as_l()?.iter().map(|s| s.to_string_lossy()).collect::<Option<Vec<_>>>()?;
@@ -269,7 +336,7 @@ impl C19 {
             Val::I(norm),
             Val::I(threads),
             maxlines,
-            Val::list(files.iter(), |f| Val::list(f.iter(), |s| Val::str(s))),
+            files_val,
             proc?,
             Val::u(ntok),
             Val::list(tests.iter(), |s| Val::str(s)),
@@ -555,6 +622,39 @@ fn gen_word(rng: &mut Rng, alpha: &[&str], maxlen: usize) -> String {
     w
 }
 
+/// a line that is not UTF-8: (a word) + an ill-formed byte sequence + (a word) (+ CR)
+fn bad_line(rng: &mut Rng, stock: &[String]) -> Val {
+    const BAD: &[&[u8]] = &[
+        &[0xff],
+        &[0x80],
+        &[0xc3],                         // truncated two-byte sequence
+        &[0xe2, 0x82],                   // truncated three-byte sequence
+        &[0xc0, 0x80],                   // overlong NUL
+        &[0xc1, 0xbf],                   // overlong
+        &[0xe0, 0x80, 0x80],             // overlong
+        &[0xed, 0xa0, 0x80],             // surrogate
+        &[0xf4, 0x90, 0x80, 0x80],       // above U+10FFFF
+        &[0xf0, 0x80, 0x80, 0x80],       // overlong
+        &[0xf8, 0x88, 0x80, 0x80, 0x80], // five-byte form
+        &[0xc3, 0x28],                   // bad continuation
+    ];
+    let mut items: Vec<Val> = vec![];
+    if rng.chance(2, 3) {
+        items.extend(rng.pick(stock).chars().map(|c| Val::I(c as i64)));
+        if rng.chance(1, 2) {
+            items.push(Val::I(32));
+        }
+    }
+    items.extend(rng.pick(BAD).iter().map(|b| Val::I(-(*b as i64) - 1)));
+    if rng.chance(1, 2) {
+        items.extend(rng.pick(stock).chars().map(|c| Val::I(c as i64)));
+    }
+    if rng.chance(1, 5) {
+        items.push(Val::I(13));
+    }
+    Val::L(items)
+}
+
 fn sep(rng: &mut Rng) -> &'static str {
     match rng.below(12) {
         0 => "  ",
@@ -647,7 +747,27 @@ impl Prop for C19 {
         let norm = if rng.chance(1, 3) { 0 } else { *rng.pick(&[1i64, 2, 3, 3, 4]) };
         // 0..3 counting threads mostly; now and then many more than lines / cores
         let threads = if rng.chance(1, 12) { *rng.pick(&[8usize, 17, 33]) } else { rng.below(4) };
-        let maxlines = if rng.chance(1, 6) { Val::some(Val::u(rng.below(4))) } else { Val::none() };
+        let mut maxlines = if rng.chance(1, 6) { Val::some(Val::u(rng.below(4))) } else { Val::none() };
+        // raw lines; now and then lines that are NOT UTF-8 (BufRead::lines yields Err, train_bpe skips them — after
+        // take(max_lines_per_file), so a line limit is set more often then), and a last line without newline
+        let mut fv: Vec<Vec<Val>> = files.iter().map(|f| f.iter().map(|s| Val::str(s)).collect()).collect();
+        if rng.chance(1, 7) {
+            for _ in 0..rng.range(1, 2) {
+                let fi = rng.below(fv.len());
+                let at = rng.below(fv[fi].len() + 1);
+                let bad = bad_line(rng, &stock);
+                fv[fi].insert(at, bad);
+            }
+            if rng.chance(1, 2) {
+                maxlines = Val::some(Val::u(rng.below(4)));
+            }
+        }
+        if rng.chance(1, 8) {
+            let fi = rng.below(fv.len());
+            if let Some(Val::L(last)) = fv[fi].last_mut() {
+                last.push(Val::I(-1000));
+            }
+        }
         let ntok = rng.range(1, 5);
         // test strings: corpus words in a new spacing, plus foreign units and trailing whitespace
         let mut tests = vec![];
@@ -678,7 +798,7 @@ impl Prop for C19 {
             Val::I(norm),
             Val::u(threads),
             maxlines,
-            Val::list(files.iter(), |f| Val::list(f.iter(), |s| Val::str(s))),
+            Val::L(fv.into_iter().map(Val::L).collect()),
             Val::L(vec![]),
             Val::u(ntok),
             Val::list(tests.iter(), |s| Val::str(s)),
@@ -892,6 +1012,12 @@ impl Prop for C19 {
             } else {
                 tags.push("untraced".into());
             }
+        }
+        if input.nth(6).and_then(|f| f.as_l()).map_or(false, |fs| fs.iter().any(|f| f.as_l().map_or(false, |ls| ls.contains(&Val::L(vec![Val::I(-1)]))))) {
+            tags.push("bad-utf8".into());
+        }
+        if p.files.iter().any(|f| f.last().map_or(false, |l| l.1)) {
+            tags.push("no-final-newline".into());
         }
         tags.push(format!("threads{}", p.threads));
         tags.push(if p.norm == 0 { "raw".into() } else { "norm".into() });
